@@ -677,6 +677,7 @@ impl PayloadEncode for ScmpDestinationUnreachable {
                 ProtocolNumber::Scmp.into(),
                 &buf[0..message_length],
             )
+            .add_slice(&buf[0..message_length])
             .checksum();
             unchecked_bit_range_be_write::<u16>(buf, L::CHECKSUM_RNG, checksum);
             message_length
@@ -756,6 +757,7 @@ impl PayloadEncode for ScmpPacketTooBig {
                 ProtocolNumber::Scmp.into(),
                 &buf[0..message_length],
             )
+            .add_slice(&buf[0..message_length])
             .checksum();
             unchecked_bit_range_be_write::<u16>(buf, L::CHECKSUM_RNG, checksum);
             message_length
@@ -841,6 +843,7 @@ impl PayloadEncode for ScmpParameterProblem {
                 ProtocolNumber::Scmp.into(),
                 &buf[0..message_length],
             )
+            .add_slice(&buf[0..message_length])
             .checksum();
             unchecked_bit_range_be_write::<u16>(buf, L::CHECKSUM_RNG, checksum);
             message_length
@@ -923,6 +926,7 @@ impl PayloadEncode for ScmpExternalInterfaceDown {
                 ProtocolNumber::Scmp.into(),
                 &buf[0..message_length],
             )
+            .add_slice(&buf[0..message_length])
             .checksum();
             unchecked_bit_range_be_write::<u16>(buf, L::CHECKSUM_RNG, checksum);
             message_length
@@ -1017,6 +1021,7 @@ impl PayloadEncode for ScmpInternalConnectivityDown {
                 ProtocolNumber::Scmp.into(),
                 &buf[0..message_length],
             )
+            .add_slice(&buf[0..message_length])
             .checksum();
             unchecked_bit_range_be_write::<u16>(buf, L::CHECKSUM_RNG, checksum);
             message_length
@@ -1139,6 +1144,7 @@ impl PayloadEncode for ScmpEchoRequest {
                 ProtocolNumber::Scmp.into(),
                 &buf[0..self.required_size(header_and_extensions_size)],
             )
+            .add_slice(&buf[0..self.required_size(header_and_extensions_size)])
             .checksum();
             unchecked_bit_range_be_write::<u16>(buf, L::CHECKSUM_RNG, checksum);
             self.required_size(header_and_extensions_size)
@@ -1207,6 +1213,7 @@ impl PayloadEncode for ScmpEchoReply {
                 ProtocolNumber::Scmp.into(),
                 &buf[0..self.required_size(header_and_extensions_size)],
             )
+            .add_slice(&buf[0..self.required_size(header_and_extensions_size)])
             .checksum();
             unchecked_bit_range_be_write::<u16>(buf, L::CHECKSUM_RNG, checksum);
             self.required_size(header_and_extensions_size)
@@ -1273,6 +1280,7 @@ impl PayloadEncode for ScmpTracerouteRequest {
                 ProtocolNumber::Scmp.into(),
                 &buf[0..self.required_size(header_and_extensions_size)],
             )
+            .add_slice(&buf[0..self.required_size(header_and_extensions_size)])
             .checksum();
             unchecked_bit_range_be_write::<u16>(buf, L::CHECKSUM_RNG, checksum);
             self.required_size(header_and_extensions_size)
@@ -1345,6 +1353,7 @@ impl PayloadEncode for ScmpTracerouteReply {
                 ProtocolNumber::Scmp.into(),
                 &buf[0..self.required_size(header_and_extensions_size)],
             )
+            .add_slice(&buf[0..self.required_size(header_and_extensions_size)])
             .checksum();
             unchecked_bit_range_be_write::<u16>(buf, L::CHECKSUM_RNG, checksum);
             self.required_size(header_and_extensions_size)
@@ -1434,6 +1443,7 @@ impl PayloadEncode for ScmpMessageUnknown {
                 ProtocolNumber::Scmp.into(),
                 &buf[0..self.required_size(header_and_extensions_size)],
             )
+            .add_slice(&buf[0..self.required_size(header_and_extensions_size)])
             .checksum();
             unchecked_bit_range_be_write::<u16>(buf, L::CHECKSUM_RNG, checksum);
 
